@@ -5,6 +5,7 @@ import (
 	"google.golang.org/grpc/codes"
 	"google.golang.org/grpc/status"
 	"google.golang.org/protobuf/proto"
+	"google.golang.org/protobuf/reflect/protoreflect"
 	"google.golang.org/protobuf/types/known/fieldmaskpb"
 )
 
@@ -45,7 +46,7 @@ func (r *ResponseFilter) Filter(msg proto.Message) {
 		proto.Reset(msg)
 		return
 	}
-	fmutils.Filter(msg, r.fields.GetPaths())
+	filterMessage(msg.ProtoReflect(), fmutils.NestedMaskFromPaths(r.fields.GetPaths()))
 }
 
 // FilterClone is like Filter but clones and returns a new msg instead of modifying the original.
@@ -62,8 +63,34 @@ func (r *ResponseFilter) FilterClone(msg proto.Message) proto.Message {
 		return clone
 	}
 	clone := proto.Clone(msg)
-	fmutils.Filter(clone, r.fields.GetPaths())
+	filterMessage(clone.ProtoReflect(), fmutils.NestedMaskFromPaths(r.fields.GetPaths()))
 	return clone
+}
+
+// filterMessage keeps the fields of msg that are mentioned in mask and clears all the rest, like fmutils.Filter.
+// Unlike fmutils.Filter it never panics: read masks come from clients and are not necessarily valid, a path that
+// continues past a field that has no sub-fields (a map, a repeated scalar or a scalar field) selects that field.
+func filterMessage(msg protoreflect.Message, mask fmutils.NestedMask) {
+	if len(mask) == 0 {
+		return
+	}
+	msg.Range(func(fd protoreflect.FieldDescriptor, v protoreflect.Value) bool {
+		sub, ok := mask[string(fd.Name())]
+		switch {
+		case !ok:
+			msg.Clear(fd)
+		case len(sub) == 0 || fd.IsMap() || fd.Message() == nil:
+			// the whole field is selected
+		case fd.IsList():
+			list := v.List()
+			for i := 0; i < list.Len(); i++ {
+				filterMessage(list.Get(i).Message(), sub)
+			}
+		default:
+			filterMessage(v.Message(), sub)
+		}
+		return true
+	})
 }
 
 type ResponseFilterOption func(*ResponseFilter)
